@@ -3,7 +3,7 @@ import vpl, json, importlib
 from concurrent.futures import ThreadPoolExecutor
 
 LEVEL = "proof"
-LIBS = ["TsigLemmas.vo"]
+LIBS = ["TsigLemmas.vo", "TsigDssLemmas.vo"]
 
 def run(res, tier, seed, replay):
     C17 = importlib.import_module("C17")
@@ -14,8 +14,9 @@ def run(res, tier, seed, replay):
                        "fault switch: every honest signer's output must satisfy the textbook equation, the library verifier, and equal the others'; "
                        "the Schnorr sum s = sum(u_i + c z_i) is recomputed by the model from the parties' own shares")
     res.assumptions += ["hash H (tmcg_mpz_shash on [m; r]) is an arbitrary function in every theorem (no random-oracle claim is made or needed)",
-                        "DSS signing: only the final algebra r = g^(1/k), s = k(m + x r) is proved (tdss_valid_partial); sharing, zero-sharings and degree-2t "
-                        "interpolation are covered by the forked runs only (testing, not proof)",
+                        "DSS signing: the algebra of steps 1f/2f (coefficients lambda_j over >= 2t+1 signers, combined shares, interpolation from any >= t+1 "
+                        "parties, r, s) is modelled and proved (tdss_valid, all_honest_same_signature); that the shared polynomials carry the right "
+                        "values (shared_mu / shared_s: VSS of v_j, the ZK product proofs, exposure of cheaters) is a hypothesis, exercised by the forked runs",
                         "synchrony: a signing run in which a library time-out expired and a check failed is inconclusive and repeated (timing is not modelled)",
                         "reduced signer sets are not exercised; refresh is exercised for DSS in the thorough tier"]
     vpl.proof_stage(res, LIBS)
